@@ -21,12 +21,17 @@ META = {
     "(mirrored maps included) and a tile whose image misses the source image has no dependency (F15 repaired); the "
     "general path drops no candidate.  Tied to /repo by an exact correspondence (exhaustive small tilings x quarter-"
     "pixel boxes, dyadic grid pairs) and a brute-force shapely oracle on real grid_intersect outputs "
-    "(same-CRS aligned / shifted / scaled / mirrored / rotated / touching / disjoint, and cross-CRS pairs).",
+    "(same-CRS aligned / shifted / scaled / mirrored / rotated / touching / disjoint; 20000+ px rasters with pixel-size ratios "
+    "k(1 +- 1e-2..1e-6); queries and dependency graphs across 13 CRSs: UTM, Albers, LAEA, polar stereographic, web mercator "
+    "and geographic CRSs other than EPSG:4326, continental lon/lat boxes with vertices that have no finite image; raising "
+    "is an oracle failure of its own; results are held and re-checked after later calls).",
     "note": "Trusted: Lean kernel + {propext, Classical.choice, Quot.sound}; shapely predicates and pyproj are "
     "parameters (general path: completeness under the footprint-superset hypothesis, `_partial`; cross-CRS pairs are "
     "sampled by the oracle only, threshold 0.5 px^2); same-CRS oracle: overlap > 1e-6 source px^2 and, on the linear "
     "path, wider than 2.5e-3 source px (snap_affine shifts the grid map by up to 1e-3 px on purpose); 'intersects' is positive-area overlap (tiles touching a query "
-    "only along an edge are not returned by the code and the test-suite pins that); doubles are sampled.",
+    "only along an edge are not returned by the code and the test-suite pins that); doubles are sampled; lon/lat boxes of "
+    "(nearly) global extent or containing a pole are only evaluated while known_findings.json has a 'tiles-query-global-box' "
+    "entry (on HEAD they raise GEOSException or return no tile for UTM / Albers / LAEA rasters: vertex-wise reprojection).",
     "technique": "Lean 4 proof over hand model + exhaustive/random differential correspondence with real code",
     "design_ref": "DESIGN.md §4 C12",
 }
@@ -429,7 +434,9 @@ def grid_pairs(R: Run, geom, GeoBox, GeoboxTiles, Affine):
             return
         deps = res[0]
         if crs_d == crs_s:
-            need = brute_deps(dst, src, 1e-6, 2.5e-3 if A is not None else 0.0)
+            # linear path: snap_affine may move the map by 1e-3 px (translation) + 1e-6 * pixel coordinate (scale)
+            slack = 2.5e-3 + 2.5e-6 * max(dst.base.shape) * max(1.0, abs(A.a), abs(A.e)) if A is not None else 0.0
+            need = brute_deps(dst, src, 1e-6, slack)
             miss = [(d, s) for d, ss in need.items() for s in ss if s not in deps.get(d, [])]
             R.oracle(not miss, "grid-intersect-misses-dependency", case, f"missing (dst, src) pairs {miss[:6]}",
                      sig=f"deps|{tag}")
@@ -514,6 +521,22 @@ def grid_pairs(R: Run, geom, GeoBox, GeoboxTiles, Affine):
         D = Affine(res * k, 0, ox + res * shift(), 0, -res * k, oy - res * shift())
         pair_case(dspec, sspec, D, S, "float", exact=False)
 
+    # large rasters (>= 20000 px, a few tiles per side) whose pixel sizes differ by k * (1 +- eps): a tolerance change in
+    # the linear test moves the far edge tiles by many pixels; judged by the brute-force footprint oracle
+    for _ in range(R.pick(60, 600)):
+        Ns = [rng.choice([20000, 24000, 30011, 65536]) for _ in range(4)]
+        dspec = ("r", (Ns[0], Ns[0] // rng.randint(3, 5) + rng.randint(0, 7)), (Ns[1], Ns[1] // rng.randint(3, 5) + rng.randint(0, 7)))
+        sspec = ("r", (Ns[2], Ns[2] // rng.randint(3, 5) + rng.randint(0, 7)), (Ns[3], Ns[3] // rng.randint(3, 5) + rng.randint(0, 7)))
+        res = rng.choice([10.0, 30.0, 0.00025, 100.0, 1.0])
+        ox, oy = rng.choice([0.0, 500000.0, rng.uniform(-1e6, 1e6)]), rng.choice([0.0, 6000000.0, rng.uniform(-1e6, 1e6)])
+        S = Affine(res, 0, ox, 0, -res, oy)
+        eps = rng.choice([1e-2, 1e-3, 8e-4, 5e-4, 1e-4, 1e-5, 2e-6, 1e-6, 5e-7, 0.0]) * rng.choice([1, -1])
+        k = rng.choice([1, 1, 1, 2, 3, 0.5])
+        kx, ky = k * (1 + eps), k * (1 + (eps if rng.random() < 0.7 else 0.0))
+        sh = rng.choice([0, 0, rng.randint(-50, 50), rng.uniform(-50, 50)])
+        D = Affine(res * kx, 0, ox + res * sh, 0, -res * ky, oy - res * sh)
+        pair_case(dspec, sspec, D, S, "large-scale-ratio", exact=False)
+
     # cross-CRS pairs (oracle only, 0.5 px² threshold; footprints through pyproj)
     utm = GeoBox((64, 80), Affine(1000, 0, 400000, 0, -1000, 6500000), "EPSG:32633")
     for _ in range(R.pick(6, 40)):
@@ -540,6 +563,242 @@ def grid_pairs(R: Run, geom, GeoBox, GeoboxTiles, Affine):
     deps = guarded(lambda: GeoboxTiles(utm, (20, 32)).grid_intersect(GeoboxTiles(far, (16, 16))))
     R.oracle(isinstance(deps, dict) and not any(deps.values()), "grid-intersect-disjoint-not-empty",
              {"cross": True, "far": True, "swapped": True}, f"{deps}", sig="disjoint|cross-crs")
+
+
+
+# ------------------------------------------------------------------ many kinds of CRS: queries and dependency graphs
+# (native CRS of the raster, bounding box in that CRS, pixel size, other CRSs that are valid over the area)
+REGIONS = [
+    ("EPSG:32755", (300000, 5200000, 620000, 5500000), 500, ["EPSG:4326", "EPSG:4283", "EPSG:3577", "EPSG:3857"]),
+    ("EPSG:3577", (800000, -4300000, 1700000, -3700000), 2000, ["EPSG:4326", "EPSG:4283", "EPSG:3857", "EPSG:32755"]),
+    ("EPSG:4283", (140, -39, 150, -33), 0.02, ["EPSG:4326", "EPSG:3577", "EPSG:3857", "EPSG:4283"]),
+    ("EPSG:4326", (141, -38, 149, -34), 0.02, ["EPSG:4283", "EPSG:3577", "EPSG:3857"]),
+    ("EPSG:32633", (400000, 6400000, 500000, 6500000), 250, ["EPSG:4326", "EPSG:4258", "EPSG:3857", "EPSG:3035"]),
+    ("EPSG:4258", (5, 45, 15, 52), 0.02, ["EPSG:4326", "EPSG:3035", "EPSG:3857", "EPSG:32632"]),
+    ("EPSG:3035", (4000000, 2500000, 4600000, 3100000), 1500, ["EPSG:4258", "EPSG:4326", "EPSG:3857"]),
+    ("EPSG:4269", (-100, 35, -90, 42), 0.02, ["EPSG:4326", "EPSG:5070", "EPSG:3857"]),
+    ("EPSG:5070", (-500000, 1200000, 300000, 1900000), 2000, ["EPSG:4269", "EPSG:4326", "EPSG:3857"]),
+    ("EPSG:4612", (135, 33, 141, 38), 0.02, ["EPSG:4326", "EPSG:3857", "EPSG:32653"]),
+    ("EPSG:3031", (300000, 300000, 900000, 800000), 2000, ["EPSG:4326"]),
+    ("EPSG:3413", (-600000, -1500000, 200000, -800000), 2500, ["EPSG:4326"]),
+    ("EPSG:3857", (16000000, -4600000, 16800000, -4000000), 2000, ["EPSG:4326", "EPSG:4283", "EPSG:3577"]),
+]
+# lon / lat boxes far larger than any of the rasters (continental scale), partly outside the valid area of the
+# projected CRSs (some vertices have no finite image there)
+BIG_BOXES = [(60, -50, 160, 0), (-30, 30, 60, 72), (-130, 20, -60, 55), (100, 20, 160, 50), (110, -45, 155, -10),
+             (-10, 35, 30, 60), (90, -60, 179, -5), (-20, 25, 70, 70)]
+# boxes of (nearly) global extent or containing a pole: the vertex-wise reprojection of odc-geo cannot represent them in
+# most projected CRSs; evaluated only while `known_findings.json` carries the entry (see GLOBAL_KEY)
+GLOBAL_BOXES = [(-180, -90, 180, -55), (-180, 55, 180, 90), (-180, -85, 180, 85), (-170, -80, 170, 80), (-179, -60, 179, 60)]
+GLOBAL_KEY = "tiles-query-global-box"
+
+
+def _tile_probe_points(gbt, idx, k=3):
+    """interior points of a tile in world coordinates (centre and an inner k x k lattice)"""
+    y0, y1, x0, x1 = tile_rects(gbt)[idx]
+    A = gbt.base.affine
+    pts = []
+    for fy in np.linspace(0.2, 0.8, k):
+        for fx in np.linspace(0.2, 0.8, k):
+            pts.append(A * (x0 + fx * (x1 - x0), y0 + fy * (y1 - y0)))
+    return pts
+
+
+def crs_kinds_stream(R: Run, geom, GeoBox, GeoboxTiles, Affine):
+    import shapely.geometry as sg
+    from pyproj import Transformer
+
+    rng = R.rng
+    BoundingBox = geom.BoundingBox
+
+    def tr(a, b):
+        return Transformer.from_crs(a, b, always_xy=True)
+
+    def mk(region, shrink=1.0, shift=(0.0, 0.0), tile=None):
+        crs, (l, b, r, t), res, _ = region
+        w, h = (r - l), (t - b)
+        cx, cy = (l + r) / 2 + shift[0] * w, (b + t) / 2 + shift[1] * h
+        box = BoundingBox(cx - w * shrink / 2, cy - h * shrink / 2, cx + w * shrink / 2, cy + h * shrink / 2, crs)
+        gb = GeoBox.from_bbox(box, resolution=res)
+        ny, nx = gb.shape
+        tile = tile or (max(1, ny // rng.randint(2, 4) + 1), max(1, nx // rng.randint(2, 4) + 1))
+        return GeoboxTiles(gb, tile)
+
+    n_q = R.pick(2, 12)
+    for region in REGIONS:
+        crs, _box, _res, others = region
+        gbt = mk(region)
+        rects = tile_rects(gbt)
+        held = []
+        # ---- tile queries in other CRSs: inside, straddling, larger than the raster, far larger (BIG_BOXES), outside
+        queries = []
+        for oc in others + ["EPSG:4326"]:
+            t = tr(crs, oc)
+            ext = gbt.base.extent
+            l, b, r, tt_ = ext.boundingbox.bbox
+            for _k in range(n_q):
+                f = rng.choice([0.3, 0.6, 1.0, 1.5, 3.0])
+                cx, cy = rng.uniform(l, r), rng.uniform(b, tt_)
+                ww, hh = (r - l) * f / 2, (tt_ - b) * f / 2
+                corners = [(cx - ww, cy - hh), (cx + ww, cy - hh), (cx + ww, cy + hh), (cx - ww, cy + hh)]
+                pts = [t.transform(x, y) for x, y in corners]
+                if not all(math.isfinite(v) for p in pts for v in p):
+                    continue
+                qb = sg.Polygon(pts)
+                if not qb.is_valid or qb.area == 0:
+                    continue
+                queries.append((geom.Geometry(qb, oc), f"poly {oc} f={f}"))
+                queries.append((geom.Geometry(qb, oc).boundingbox, f"bbox {oc} f={f}"))
+        for bb in BIG_BOXES:
+            gcrs = rng.choice(["EPSG:4326"] + [o for o in others if o in ("EPSG:4283", "EPSG:4258", "EPSG:4269", "EPSG:4612")])
+            q = BoundingBox(*bb, gcrs)
+            queries.append((q, f"big bbox {gcrs} {bb}"))
+            queries.append((q.polygon, f"big poly {gcrs} {bb}"))
+        if R.match_known(GLOBAL_KEY) is not None:
+            for bb in GLOBAL_BOXES:
+                q = BoundingBox(*bb, "EPSG:4326")
+                queries += [(q, f"global bbox EPSG:4326 {bb}"), (q.polygon, f"global poly EPSG:4326 {bb}")]
+        else:
+            R.count("skipped:global-box-queries(no known-finding entry)")
+        to_q = {}
+        for q, label in queries:
+            qcrs = str(q.crs)
+            qpoly = (q.polygon if isinstance(q, BoundingBox) else q).geom
+            case = {"raster": crs, "shape": list(gbt.base.shape), "query": label,
+                    "wkt": qpoly.wkt[:300]}
+            got = guarded(lambda: sorted(gbt.tiles(q)))
+            if isinstance(got, str):
+                R.oracle(False, GLOBAL_KEY if label.startswith("global") else "tiles-query-raises", case,
+                         f"tiles() raised {got} instead of returning the intersecting tiles",
+                         sig="query-raises|" + label.split(" ")[0])
+                continue
+            held.append((label, case, got, list(got)))
+            # oracle: a tile with an interior probe point strictly inside the query has to be returned.  odc-geo
+            # re-projects a query vertex by vertex, so "inside" is required in both readings: inside the polygon as
+            # drawn in its own CRS and inside the polygon through the projected vertices (those with a finite image)
+            if qcrs not in to_q:
+                to_q[qcrs] = (tr(crs, qcrs), tr(qcrs, crs))
+            inner = qpoly.buffer(-1e-6 * math.sqrt(qpoly.area))
+            vpts = [to_q[qcrs][1].transform(x, y) for x, y in list(qpoly.exterior.coords)[:-1]] if qcrs != crs else \
+                list(qpoly.exterior.coords)[:-1]
+            vpts = [p_ for p_ in vpts if math.isfinite(p_[0]) and math.isfinite(p_[1])]
+            if len(vpts) < 3:
+                continue
+            chord = sg.Polygon(vpts)
+            if not chord.is_valid:
+                chord = chord.buffer(0)
+            if chord.is_empty or chord.area == 0:
+                continue
+            chord_in = chord.buffer(-1e-6 * math.sqrt(chord.area))
+            miss = []
+            for idx in rects:
+                for (wx, wy) in _tile_probe_points(gbt, idx, 2):
+                    px, py = to_q[qcrs][0].transform(wx, wy) if qcrs != crs else (wx, wy)
+                    if (math.isfinite(px) and math.isfinite(py) and inner.contains(sg.Point(px, py))
+                            and chord_in.contains(sg.Point(wx, wy)) and idx not in got):
+                        miss.append(idx)
+                        break
+            key = GLOBAL_KEY if label.startswith("global") else "tiles-geom-misses-tile"
+            R.oracle(not miss, key, case, f"tiles {got} miss {miss}: their interior lies inside the query",
+                     sig="geom|crs-kinds|" + label.split(" ")[0])
+        for label, case, live, snap in held:
+            R.oracle(live == snap, "result-mutated-by-later-call", case, f"tiles() result of query {label} changed afterwards",
+                     sig="held", trivial=True)
+
+        # ---- dependency graphs against rasters in the other CRSs (both directions), overlapping and far away
+        for oc in others:
+            oreg = next((g for g in REGIONS if g[0] == oc), None)
+            t = tr(crs, oc)
+            l, b, r, tt_ = gbt.base.extent.boundingbox.bbox
+            shiftx, shifty = rng.choice([0, 0.3, -0.4]), rng.choice([0, 0.25, -0.3])
+            cs = [t.transform(x + shiftx * (r - l), y + shifty * (tt_ - b)) for x in (l, r) for y in (b, tt_)]
+            if not all(math.isfinite(v) for p in cs for v in p):
+                continue
+            xs_, ys_ = [p[0] for p in cs], [p[1] for p in cs]
+            span = max(max(xs_) - min(xs_), max(ys_) - min(ys_))
+            ores = oreg[2] if oreg else span / 150
+            if span / ores > 400:
+                ores = span / 300
+            other = GeoBox.from_bbox(BoundingBox(min(xs_), min(ys_), max(xs_), max(ys_), oc), resolution=ores)
+            ogbt = GeoboxTiles(other, (max(1, other.shape[0] // 3 + 1), max(1, other.shape[1] // 3 + 2)))
+            for dst, src, dname in ((gbt, ogbt, f"{crs}<-{oc}"), (ogbt, gbt, f"{oc}<-{crs}")):
+                case = {"dst": str(dst.base.crs), "src": str(src.base.crs), "dst_shape": list(dst.base.shape),
+                        "src_shape": list(src.base.shape), "dst_aff": aff_s(dst.base.affine), "src_aff": aff_s(src.base.affine)}
+                deps = guarded(lambda: dst.grid_intersect(src))
+                if isinstance(deps, str):
+                    R.oracle(False, "grid-intersect-raises", case, f"grid_intersect raised {deps} instead of returning the graph",
+                             sig="deps-raises|" + dname)
+                    continue
+                snap = {k: list(v) for k, v in deps.items()}
+                d2s = tr(str(dst.base.crs), str(src.base.crs))
+                srect = tile_rects(src)
+                sny, snx = src.base.shape
+                invS = ~src.base.affine
+                miss = []
+                drect = tile_rects(dst)
+                DA = dst.base.affine
+
+                def to_src_px(x, y):
+                    sx_, sy_ = d2s.transform(*(DA * (x, y)))
+                    return invS * (sx_, sy_) if math.isfinite(sx_) and math.isfinite(sy_) else (math.nan, math.nan)
+
+                for didx, (y0, y1, x0, x1) in drect.items():
+                    if y0 == y1 or x0 == x1:
+                        continue
+                    # the code projects the four corners of the tile only: allow for the sag of its curved edges
+                    cs = [(x0, y0), (x1, y0), (x1, y1), (x0, y1)]
+                    sag = 0.0
+                    for (ax, ay), (bx, by) in zip(cs, cs[1:] + cs[:1]):
+                        pa, pb, pm = to_src_px(ax, ay), to_src_px(bx, by), to_src_px((ax + bx) / 2, (ay + by) / 2)
+                        sag = max(sag, math.hypot(pm[0] - (pa[0] + pb[0]) / 2, pm[1] - (pa[1] + pb[1]) / 2))
+                    if not math.isfinite(sag):
+                        continue
+                    mg = 2 + 2 * sag
+                    for (wx, wy) in _tile_probe_points(dst, didx, 3):
+                        sx_, sy_ = d2s.transform(wx, wy)
+                        if not (math.isfinite(sx_) and math.isfinite(sy_)):
+                            continue
+                        px, py = invS * (sx_, sy_)
+                        if not (mg <= px <= snx - mg and mg <= py <= sny - mg):
+                            continue
+                        for sidx, (a0, a1, b0, b1) in srect.items():
+                            if a0 + mg <= py <= a1 - mg and b0 + mg <= px <= b1 - mg and sidx not in deps.get(didx, []):
+                                miss.append((didx, sidx))
+                R.oracle(not miss, "grid-intersect-misses-dependency", case,
+                         f"interior points of dst tiles fall well inside src tiles that are not listed: {sorted(set(miss))[:6]}",
+                         sig="deps|crs-kinds|" + dname)
+                again = guarded(lambda: dst.grid_intersect(src))
+                R.oracle(deps == snap and again == snap, "result-mutated-by-later-call", case,
+                         "grid_intersect result changed after / differs on a second call", sig="held", trivial=True)
+            # far away raster in the other CRS (another region using that CRS, if any): empty graph, no error
+            for freg in REGIONS:
+                if freg[0] != oc or freg is oreg and False:
+                    continue
+                fgbt = mk(freg)
+                if fgbt.base.extent.to_crs("EPSG:4326").intersects(gbt.base.extent.to_crs("EPSG:4326")):
+                    continue
+                for dst, src in ((gbt, fgbt), (fgbt, gbt)):
+                    case = {"dst": str(dst.base.crs), "src": str(src.base.crs), "far": True,
+                            "dst_aff": aff_s(dst.base.affine), "src_aff": aff_s(src.base.affine)}
+                    deps = guarded(lambda: dst.grid_intersect(src))
+                    if isinstance(deps, str):
+                        R.oracle(False, "grid-intersect-raises", case, f"raised {deps} for rasters that do not overlap",
+                                 sig="deps-raises|far")
+                    else:
+                        R.oracle(not any(deps.values()), "grid-intersect-disjoint-not-empty", case, f"{str(deps)[:200]}",
+                                 sig="disjoint|crs-kinds")
+    # rasters on different continents, every pair of regions
+    gb_all = [mk(g) for g in REGIONS]
+    ll = [g.base.extent.to_crs("EPSG:4326") for g in gb_all]
+    for i, j in itertools.permutations(range(len(REGIONS)), 2):
+        if rng.random() > R.pick(0.25, 1.0) or ll[i].intersects(ll[j]):
+            continue
+        case = {"dst": REGIONS[i][0], "src": REGIONS[j][0], "far": True}
+        deps = guarded(lambda: gb_all[i].grid_intersect(gb_all[j]))
+        if isinstance(deps, str):
+            R.oracle(False, "grid-intersect-raises", case, f"raised {deps} for rasters that do not overlap", sig="deps-raises|far")
+        else:
+            R.oracle(not any(deps.values()), "grid-intersect-disjoint-not-empty", case, f"{str(deps)[:200]}", sig="disjoint|crs-kinds")
 
 
 def _maybe_int_exact(x: Fraction, tol: Fraction):
@@ -621,6 +880,7 @@ def run(R: Run):
     geom_queries(R, geom, GeoBox, GeoboxTiles, Affine)
     snap_cases(R, Affine)
     grid_pairs(R, geom, GeoBox, GeoboxTiles, Affine)
+    crs_kinds_stream(R, geom, GeoBox, GeoboxTiles, Affine)
     R.exhaustive = False
     R.assumptions.append("shapely `disjoint` / `intersection` and pyproj are trusted oracles and model parameters")
     R.assumptions.append("tolerances of snap_affine / is_affine_st are passed as the exact rational value of the doubles")
@@ -642,8 +902,9 @@ def replay(R: Run, rec) -> int:
         src = mk_gbt(GeoBox, GeoboxTiles, sp(case["sspec"]), pa(case["S"]), case["crs"][1])
         deps = dst.grid_intersect(src)
         print("grid_intersect:", deps)
-        lin = case["crs"][0] == case["crs"][1] and dst._check_linear(src) is not None
-        need = brute_deps(dst, src, 1e-6, 2.5e-3 if lin else 0.0)
+        A = dst._check_linear(src) if case["crs"][0] == case["crs"][1] else None
+        lin = A is not None
+        need = brute_deps(dst, src, 1e-6, 2.5e-3 + 2.5e-6 * max(dst.base.shape) * max(1.0, abs(A.a), abs(A.e)) if lin else 0.0)
         print("brute-force overlaps:", need)
         miss = [(d, s) for d, ss in need.items() for s in ss if s not in deps.get(d, [])]
         if lin:
